@@ -10,7 +10,9 @@
      Grid2D.from_mask, Mask2D.derive_grid.{all_false,unmasked,edge,border}, derive_mask.*, Grid2D.blurring_grid_from,
      Grid2D.padded_grid_from, OverSamplerUniform.over_sampled_grid, BorderRelocator.sub_grid, Mask2D.mask_centre,
      Mask2D.zoom_{centre,offset_pixels,offset_scaled,region,shape_native,mask_unmasked}, Array2D.zoomed_around_mask,
-     Grid2D.grid_2d_radial_projected_from (angle 0), Mask2D.resized_from, image_mesh.Overlay.image_plane_mesh_grid_from,
+     Grid2D.grid_2d_radial_projected_from (angle 0: [radial_projected]; any angle, given as the pair (cos, sin): [radial_projected_a]),
+     BorderRelocator.sub_border_grid / relocated_grid_from / relocated_mesh_grid_from, derive_grid.edge / border with C10's models of
+     the index lists ([edge_sel], [border_sel]), Mask2D.resized_from / rescaled_from, image_mesh.Overlay.image_plane_mesh_grid_from,
      the geometry of image_mesh.Hilbert (hilbert.image_and_grid_from), Mesh2DRectangular.overlay_grid + MapperRectangular,
      Imaging.apply_mask / apply_noise_scaling / trimmed_after_convolution_from, SimulatorImaging.via_image_from,
      preprocess.noise_map_with_signal_to_noise_limit_from.
